@@ -225,7 +225,8 @@ class FileInfo:
         # noinspection PyProtectedMember
         prefix = self.vpk._dir_prefix
 
-        if prefix is None:
+        if prefix is None or self.vpk.dir_limit is None:
+            # Singular VPK, or no limit for the directory: everything is kept in the directory.
             self.start_data = data
             self.arch_len = 0
             return
